@@ -136,6 +136,28 @@ def mul_vectors(seed, extra=()):
     return vs
 
 
+def div_vectors(seed, extra=()):
+    """corner-digit dividends of 3..4 digits by 2-digit divisors (the Knuth-D core with a0 == b0, add-back, q0 = MAX cases) + seeded random"""
+    rnd = random.Random(seed)
+    C = [0, 1, 2, (1 << 64) - 1, (1 << 64) - 2, 1 << 63, (1 << 63) + 1, (1 << 63) - 1]
+    vs = list(extra)
+    for d1 in C:
+        if d1 == 0:
+            continue
+        for d0 in C:
+            d = (d1 << 64) | d0
+            for u2 in C:
+                for u1 in C:
+                    for u0 in (0, 1, (1 << 64) - 1):
+                        u = (u2 << 128) | (u1 << 64) | u0
+                        vs.append(("div", u, d))
+                        vs.append(("rem", (u << 64) | u1, d))
+    for _ in range(500):
+        n, m = rnd.choice((3, 4, 6)), rnd.choice((2, 3))
+        vs.append(("div", rnd.getrandbits(64 * n), rnd.getrandbits(64 * m) | (1 << (64 * m - 1))))
+    return vs
+
+
 def run_vectors(binary, vectors, valgrind=False):
     inp = "".join("%s %x %x\n" % (op, a, b) for op, a, b in vectors)
     cmd = [str(binary)]
